@@ -26,11 +26,13 @@ BASE_THEOREMS = [
     "PV.C12.visitWFExcept_gen",
     "PV.C12.visit_complete_gen",
     "PV.C12.visit_complete_partial",
+    # generated into PV/Gen/C12Witness.lean only while the regenerated obligation VisitWF is true; if a visit body is
+    # emptied again the translator emits witnesses + visit_complete_fails instead and this obligation is broken
+    "PV.C12.Gen.visit_complete_holds",
     "PV.C12.opt_idempotent",
-    "PV.C12.opt_spec_partial",
-    "PV.C12.opt_spec_fails",
+    "PV.C12.opt_spec",
 ]
-THEOREMS = list(BASE_THEOREMS)      # pre_build appends the regenerated witness theorems
+THEOREMS = list(BASE_THEOREMS)      # pre_build appends regenerated witness theorems (only when VisitWF is false)
 TRUSTED = [
     "Lean 4.33.0 kernel; axioms limited to propext, Classical.choice, Quot.sound",
     "tools/c12_translate.py (strict scanner of ast/src/gen/{generic,fold,visitor}.rs and ast/src/fold.rs; regenerates "
@@ -46,15 +48,11 @@ TRUSTED = [
     "('trees produced from valid programs')",
 ]
 PARTIAL = [
-    "visit_complete_full is false on the unchanged tree (5 product kinds have an empty generic_visit_* body): proved is "
-    "visit_complete_partial (every stmt/expr/pattern/excepthandler node not below an arguments/keyword/withitem/"
-    "match_case/comprehension node is reached exactly once) plus the kernel-checked witnesses visit_misses_below_*; "
-    "visit_complete_gen gives the full statement as soon as the regenerated obligation VisitWF becomes true",
-    "opt_spec_full is false (store/del-context all-constant tuples are folded): proved is opt_spec_partial on trees "
-    "without such tuples, and opt_spec_fails",
-    "trees of Mod::Module only are exercised by the correspondence (Expression/Interactive/FunctionType roots are covered "
-    "by the theorems, not by generated inputs); feature all-nodes-with-ranges is covered by the theorems through "
-    "rangeMode 2 and, in the thorough tier, by the `allranges-*` streams (harness built with that feature)",
+    "none for the statement itself: fold_identity_gen / fold_callbacks_once_gen, Gen.visit_complete_holds "
+    "(visit_complete_full) and opt_spec / opt_idempotent are the full property on the models",
+    "scope of the tie, not of the theorems: correspondence runs on Module / Expression / Interactive roots "
+    "(FunctionType roots and TypeIgnore nodes cannot be produced by the parser); feature all-nodes-with-ranges is covered "
+    "by the theorems through rangeMode 2 and, in the thorough tier, by the `allranges-*` streams",
 ]
 READY = True
 TECHNIQUE = ("Lean 4 schema-generic theorems by induction over a generic tree + `decide` on fold/visit programs regenerated "
@@ -64,12 +62,11 @@ LEVEL_TEXT = ("Machine-checked Lean 4 theorems for trees of every size and shape
               "callbacks are a permutation of the ranges of the range-carrying nodes; for ANY visitor program satisfying its "
               "predicate the default Visitor reaches exactly the stmt/expr/pattern/excepthandler nodes of the tree, each once. "
               "The fold and visit programs of all 80 node kinds are regenerated from ast/src/gen/*.rs on every run and shown "
-              "well-formed by kernel `decide` (the visitor one is false on the unchanged tree: listed finding with "
-              "kernel-checked witnesses and a proved partial statement). The constant-tuple optimiser model is proved "
-              "idempotent and equal to the reference transformation except on store-context constant tuples (witnessed). "
-              "The translator and the hand model are tied to the code by running the real recording Folder/Visitor/optimiser "
-              "and the Lean interpreters on the same parsed programs and diffing call sequences and dumps; an independent "
-              "Python oracle judges the real code.")
+              "well-formed by kernel `decide`, which yields the property for the real node kinds (fold_identity_gen, "
+              "fold_callbacks_once_gen, Gen.visit_complete_holds). The constant-tuple optimiser model is proved equal to the "
+              "reference transformation on every tree and idempotent. The translator and the hand model are tied to the code "
+              "by running the real recording Folder/Visitor/optimiser and the Lean interpreters on the same parsed programs "
+              "and diffing call sequences and dumps; an independent Python oracle judges the real code.")
 LEVEL_NOTE = ("Trusted: Lean kernel, the translator (checked by call-sequence correspondence on every run), the generic "
               "interpreter as the reading of the generated Rust, rustc's type checker for mismatched-type edits, the harness, "
               "the Debug-text parser and the generator.")
@@ -107,7 +104,7 @@ def pre_build(ctx):
     res = T.translate()            # raises TranslateError on any unrecognised shape
     _state["res"] = res
     changed = T.emit(res)
-    THEOREMS[:] = BASE_THEOREMS + res.witness_theorems
+    THEOREMS[:] = BASE_THEOREMS + [t for t in res.witness_theorems if t not in BASE_THEOREMS]
     sc = res.schema
     out = [("translate ast/src/gen/{generic,fold,visitor}.rs -> lean/PV/Gen/C12*.lean", True,
             f"{len(sc.kinds)} node kinds, {len(sc.sums)} sum types, orphans {sc.orphans}; rewritten: {changed or 'nothing'}")]
@@ -117,7 +114,7 @@ def pre_build(ctx):
     detail = ("VisitWF is true" if not res.visit_skip and not res.visit_problems else
               f"VisitWF is false; empty visit bodies: {res.visit_skip} (listed known findings: "
               f"{[k for k in res.visit_skip if k not in unexplained]}); other defects: {res.visit_problems}")
-    out.append(("regenerated obligation VisitWF Gen.visitProg Gen.schema (false only as far as listed known findings explain)",
+    out.append(("regenerated obligation VisitWF Gen.visitProg Gen.schema",
                 ok, detail))
     ctx.extra["translator"] = {"kinds": len(sc.kinds), "visit_skip": res.visit_skip, "visit_problems": res.visit_problems}
     return out
